@@ -168,6 +168,22 @@ def run_grid(case):
         if st2 != "ok" or int(got2) != want:
             v.append({"kind": "get_cmc-differs-from-spec",
                       "detail": f"grid {grid} coords {coords}: {st2} {got2}, spec {want}"})
+        if obs["positions"] % 5 == 0:
+            # the same position given as narrow NumPy integers (rows of a uint16 / int32
+            # table of bounding boxes): the identifier is the same 64-bit number
+            import numpy as np
+            top = max(coords)
+            ndt = np.uint8 if top < 256 else np.uint16 if top < 65536 else np.int32 \
+                if top < 2 ** 31 else np.int64
+            st3, got3 = _call(spec.get_cmc, tuple(ndt(c) for c in coords))
+            st4, got4 = _call(spec.compressed_morton_code, np.array(pos, dtype=ndt))
+            obs["narrow_numpy_coordinates"] = obs.get("narrow_numpy_coordinates", 0) + 1
+            # (compressed_morton_code documents List[int] and may refuse other integer
+            # types; if it answers, the answer must be the same identifier)
+            if st3 != "ok" or int(got3) != want or (st4 == "ok" and int(got4) != want):
+                v.append({"kind": "identifier-depends-on-the-integer-type-of-the-coordinates",
+                          "detail": f"grid {grid} pos {pos} as {np.dtype(ndt).name}: get_cmc "
+                          f"{st3} {got3}, compressed_morton_code {st4} {got4}, spec {want}"})
         if len(v) > 20:
             break
     # rejection probes
@@ -200,6 +216,19 @@ def run_grid(case):
                       "detail": f"grid {grid} chunk {chunk}: coords {coords} accepted"})
         else:
             obs["rejected"] += 1
+        for frac in (0.5, -0.5, 0.25):
+            # lower bounds that are not whole numbers are off the lattice whatever the
+            # chunk size
+            lo = [float(b * chunk) for b in base]
+            lo[ax] += frac
+            coords = (lo[0], lo[0] + chunk, lo[1], lo[1] + chunk, lo[2], lo[2] + chunk)
+            obs["rejection_probes"] += 1
+            st, got = _call(spec.get_cmc, coords)
+            if st == "ok":
+                v.append({"kind": "off-lattice-chunk-accepted",
+                          "detail": f"grid {grid} chunk {chunk}: coords {coords} accepted"})
+            else:
+                obs["rejected"] += 1
         if chunk > 1:
             lo = [b * chunk for b in base]
             lo[ax] += 1
@@ -301,6 +330,21 @@ def run_dataset(case):
     try:
         with open(os.path.join(d, "info"), "w") as f:
             json.dump(info, f)
+        # the scale directories are not empty: files left by another tool or an earlier
+        # configuration (unpadded shard numbers, other names) lie around
+        decoys = {}
+        for i, sc in enumerate(case["scales"]):
+            os.makedirs(os.path.join(d, f"s{i}"))
+            decoys[i] = set()
+            if rnd.random() < 0.5:
+                for name in ("0.shard", "1.shard", "5.shard", "a.shard", "README", "00.shard"):
+                    width = -(-sc["triple"][2] // 4)
+                    if len(name.split(".")[0]) != width:
+                        with open(os.path.join(d, f"s{i}", name), "wb"):
+                            pass
+                        decoys[i].add(name)
+                obs["scale_directories_with_foreign_files"] = obs.get(
+                    "scale_directories_with_foreign_files", 0) + 1
         acc = accessor_mod.get_accessor_for_url(d)
         if not isinstance(acc, sharded_file_accessor.ShardedFileAccessor):
             return {"violations": [{"kind": "dispatch-not-sharded", "detail": ctx}],
@@ -324,7 +368,9 @@ def run_dataset(case):
             expected.setdefault(i, set()).add(stem + ".shard")
         acc.close()
         for i in expected:
-            have = {n for n in os.listdir(os.path.join(d, f"s{i}")) if n.endswith(".shard")}
+            have = {n for n in os.listdir(os.path.join(d, f"s{i}")) if n.endswith(".shard")
+                    and not (n in decoys[i] and os.path.getsize(
+                        os.path.join(d, f"s{i}", n)) == 0)}
             obs["dataset_shard_files"] += len(have)
             if have != expected[i]:
                 v.append({"kind": "shard-files-differ-from-the-names-prescribed-for-the-"
